@@ -81,17 +81,68 @@ def c08_streams(rng, tier, budget):
             h = st2.new(bs)
             if warm:
                 st2.obs_all(h, ALL_OBS)
+                for nm in ("parent", "origin", "relative"):      # cached derivations count as observations too
+                    st2.obs_all(st2.mod(h, nm), ["str"])
             for nm, args in targeted:
                 m = st2.mod(h, nm, *args)
                 st2.obs_all(m, ALL_OBS)
                 st2.obs_all(st2.pkl(m), ALL_OBS)
+                for nm2 in ("parent", "origin", "relative"):
+                    st2.obs_all(st2.mod(m, nm2), ["str", "val"])
             st2.obs_all(h, ALL_OBS)
     yield "observe-derive-observe", st2
+    # compare, fill every per-object cache of both operands (accessors, hash, pickling/copying, derivations), compare again:
+    # the outcome of ==, <, hash-equality for a pair must not depend on what was done to the operands in between
+    st3 = Stream()
+    pairs = []
+    for s0 in ["http://example.com", "http://u:p@example.com:81", "//example.com", "http://h/a", "http://h/?q", "x:", "http://[::1]", "", "/", "http://h:80",
+               "http://é.example"] + [urlgen.rand_url_string(rng) for _ in range(int((15 if tier == "quick" else 200) * budget))]:
+        pairs += [(s0, s0), (s0, s0 + "/"), (s0 + "/", s0), (s0, s0 + "#"), (s0, s0.upper()), (s0, s0 + "?")]
+    for (sa, sb) in pairs:
+        a, c = st3.new(sa), st3.new(sb)
+        st3.cmp(a, c)
+        for h in (a, c):
+            k = rng.randrange(4)
+            if k == 0:
+                st3.pkl(h)
+            elif k == 1:
+                st3.obs_all(h, ALL_OBS)
+            elif k == 2:
+                st3.obs_all(st3.pkl(h), ["str"])
+                st3.mod(h, "parent")
+            else:
+                st3.pkl(h)
+                st3.obs_all(h, ["str", "raw_host", "port"])
+        st3.cmp(a, c)
+        st3.cmp(c, a)
+        st3.pkl(a)
+        st3.pkl(c)
+        st3.cmp(a, c)
+        st3.cmp(st3.new(sa), st3.new(sb))          # re-obtained through the constructor cache
+    yield "compare-observe-compare", st3
+
+
+def c08_cmp_oracle(full, io, b):
+    """the same comparison of the same two URL objects gives the same answer whenever it is asked"""
+    out = []
+    seen = {}
+    for n, line in enumerate(full):
+        f = line.split("\t")
+        if f[0] != "cmp" or io[n] is None:
+            continue
+        key = (f[1], f[2])
+        if key in seen and io[seen[key]] != io[n]:
+            out.append({"what": f"comparing {describe_handle(full, int(f[1]))} with {describe_handle(full, int(f[2]))} gave {io[seen[key]]} first and {io[n]} "
+                                f"after further reads/pickling of the operands (flags: eq ne lt le hash-eq …)",
+                        "class": "history-dependent-comparison", "n": n, "also": [seen[key]] + list(range(seen[key] + 1, n)),
+                        "input": describe_handle(full, int(f[1]))})
+        seen.setdefault(key, n)
+    return out
 
 
 def c08_oracle(full, io, b):
     """a URL returned by a modifier must answer every accessor like its own cache-free twin"""
-    out = []
+    out = c08_cmp_oracle(full, io, b)
     v = View(full, io)
     for h, n in enumerate(v.cr):
         f = full[n].split("\t")
@@ -214,7 +265,9 @@ def c10_streams(rng, tier, budget):
     st = Stream()
     base = ["http://h", "http://h/", "http://h:80", "http://h:80/", "http://H/", "https://h/", "http://h/a", "http://h/a?q", "http://h/a#f", "http://h?q",
             "http://h/?q", "http://u@h/", "http://h/%7E", "http://h/~", "//h", "//h/", "/", "", "a", "http://h/a?", "http://h/a#", "http://i/", "http:/h",
-            "http://h//", "http://h/a/", "HTTP://h", "http://h:81/", "http://[::1]/", "http://[::1]", "ftp://h", "ftp://h/", "http://h/é", "http://h/%C3%A9"]
+            "http://h//", "http://h/a/", "HTTP://h", "http://h:81/", "http://[::1]/", "http://[::1]", "ftp://h", "ftp://h/", "http://h/é", "http://h/%C3%A9",
+            # an authority marker whose authority normalises to nothing: same five components as the URL without it
+            "//@", "//:", "//@:", "//", "///", "//@?q", "?q", "//@/x", "/x", "x://@", "x:", "x://", "//:#f", "#f", "x://@:/", "x:/"]
     n_extra = int((40 if tier == "quick" else 200) * budget)
     strs = base + [urlgen.rand_url_string(rng) for _ in range(n_extra)]
     hs = []
@@ -228,6 +281,8 @@ def c10_streams(rng, tier, budget):
     for h in list(hs[:20]):
         hs.append(st.pkl(h))
         hs.append(st.mod(h, "with_fragment", "~"))
+    for h in list(hs[33:49]):
+        hs.append(st.pkl(h))
     for h in hs:
         st.obs_all(h, ["val"])
     for a in hs:
@@ -401,7 +456,11 @@ def c11_streams(rng, tier, budget):
                                      ("with_password", [enc("s:e@c")]), ("with_port", ["~"]), ("with_port", ["0"]), ("with_port", ["80"]),
                                      ("with_port", ["8080"]), ("with_host", [enc("h2.example")]), ("with_host", [enc("::2")]),
                                      ("with_scheme", [enc("https")]), ("with_fragment", ["~"]), ("with_fragment", [enc("z z")])):
-                        st3.obs_all(st3.mod(h, nm, *args), C11_OBS)
+                        m = st3.mod(h, nm, *args)
+                        st3.obs_all(m, C11_OBS)
+                        # second-level derivations of the RESULT, after the same derivations of the base were computed (and cached) above
+                        for nm2 in ("parent", "origin"):
+                            st3.obs_all(st3.mod(m, nm2), ["scheme", "raw_user", "raw_password", "raw_host", "explicit_port", "raw_path", "str"])
     yield "full-matrix-targeted", st3
     yield "random", general_stream(rng, int((100 if tier == "quick" else 1500) * budget), C11_OBS, enc_frac=0.0, with_join=False, with_build=False)
 
@@ -487,7 +546,10 @@ def c12_oracle(full, io, b):
                 out.append({"what": f"{name}({f[4]}) raised {res} for a valid argument", "class": "query-error", "n": n, "input": describe_handle(full, h)})
             continue
         new = v.get(h, "query")
-        if new is None or new.startswith("!"):
+        if new is not None and new.startswith("!"):
+            out.append(fail(v, h, "query", f"{name}({f[4]}) returned a URL whose .query is not a multidict of str pairs: {new}", "query-accessor"))
+            continue
+        if new is None:
             continue
         new = dpairs(new)
         if e[0] == "none":
